@@ -1,6 +1,6 @@
 (* Lradiotap — RadioTap codec (layers/radiotap.go as repaired on agent-fixer and agent-ldot11):
    contributions to C19, C05, C06, C07, C01. *)
-From GP Require Import Base Codec MiscLib LradiotapModel LradiotapProofs.
+From GP Require Import Base Codec MiscLib LradiotapModel LradiotapProofs LradiotapRt.
 Open Scope Z_scope.
 
 (* all byte strings (also beyond 64K, where the 16 bit offsets are confined to the first 65535 octets), all receiver states *)
@@ -72,6 +72,26 @@ Definition C06_radiotap_roundtrip_statement : Prop := forall l payload csum junk
     rt_flags0 (rt_values l) = Ok f /\ rt_payload_of f payload = Ok p /\ rt_payload d = p /\
     rt_version d = rt_version l /\ rt_present d = rt_present l /\ rt_values d = rt_values l /\ rt_vendor d = rt_vendor l /\
     rt_length d = zlen bytes - zlen payload /\ rt_contents d = firstn (Z.to_nat (rt_length d)) bytes.
+
+(* C06, proved part 1 (headers made of radiotap namespaces only — domain rt_wf_rt of Proofs/LradiotapRt.v: no vendor namespace,
+   the extension bits chain the words, every word but the last announces a radiotap namespace, one well-formed value per word):
+   the octets SerializeTo writes with FixLengths are the layout rt_hdr — version, pad, length, the Present words, then per namespace
+   every present field at its aligned offset, the gaps zero — followed by the payload *)
+Theorem C06_radiotap_serialize_layout_partial : forall l payload csum junk, rt_wf_rt l ->
+  rt_serialize l payload true csum junk = (Ok (rt_hdr l ++ payload), l).
+Proof. exact rt_serialize_layout. Qed.
+Print Assumptions C06_radiotap_serialize_layout_partial.
+
+(* the decoder reads a namespace's values back from that layout (the field walk, any offset, any surrounding octets) *)
+Theorem C06_radiotap_fields_readback_partial : forall present vs W acc rest,
+  Forall2 (row_wf present) rt_fields vs -> zlen W + 106 <= 65535 ->
+  zlen (W ++ ns_bytes present rt_fields vs (zlen W) ++ rest) <= 65535 ->
+  rt_fields_loop (W ++ ns_bytes present rt_fields vs (zlen W) ++ rest) present rt_fields (zlen W, acc) =
+    Ok (zlen W + zlen (ns_bytes present rt_fields vs (zlen W)), acc ++ vs).
+Proof.
+  intros present vs W acc rest Hv Hs Hb. apply rt_fields_loop_layout; [exact Hv|exact rt_fields_ok|rewrite fsum_fields; lia|exact Hb].
+Qed.
+Print Assumptions C06_radiotap_fields_readback_partial.
 
 (* non-vacuity: a two-namespace value (TSFT, Flags with the FCS bit, Rate; then a vendor namespace) in the domain,
    its serialization, and the decode of those bytes — an instance of the stated round trip *)
